@@ -1,5 +1,6 @@
 import HapVerif.Model.Request
 import HapVerif.Spec.IosRequest
+import HapVerif.Gen.Request
 
 /-! # C09 - requests are written byte-for-byte in the canonical iOS form -/
 
@@ -147,5 +148,34 @@ example : getReq (str "/accessories") (str "fe80::1%en0") = str "GET /accessorie
 example : withBody (str "PUT") (str "/characteristics") (str "10.0.0.2") (str "application/hap+json") (str "{}") =
     str "PUT /characteristics HTTP/1.1\r\nHost: 10.0.0.2\r\nContent-Length: 2\r\nContent-Type: application/hap+json\r\n\r\n{}" := by
   decide +kernel
+
+/-- tie to the source (regenerated on every run from `HomeKitConnection.request / get / put / post`, `_connect_once`
+    and `HttpContentTypes`): the request line and Host header come first, then one `name: value` line per header, then
+    two empty strings, joined by CRLF; the body is appended only when there is one; the whole request goes to the
+    protocol in ONE call; `get` passes no headers, `put` and `post` pass Content-Length then Content-Type (defaults
+    JSON resp. TLV); IPv6 literals are bracketed and no port is written -/
+theorem C09_gen_tie :
+    Gen.Request.buffer0 = ["{method.upper()} {target} HTTP/1.1", "{self.host_header}"] ∧
+    Gen.Request.appends = ["{header}: {value}", "", ""] ∧
+    Gen.Request.join = "\r\n" ∧ Gen.Request.bodyGuard = ["body"] ∧
+    Gen.Request.sends = ["self.protocol.send_bytes(request_bytes)"] ∧
+    (Gen.Request.getMethod, Gen.Request.getHeaders) = ("GET", []) ∧
+    (Gen.Request.putMethod, Gen.Request.putHeaders, Gen.Request.putDefaults) =
+      ("PUT", [("Content-Length", "len(body)"), ("Content-Type", "content_type.value")], ["HttpContentTypes.JSON"]) ∧
+    (Gen.Request.postMethod, Gen.Request.postHeaders, Gen.Request.postDefaults) =
+      ("POST", [("Content-Length", "len(body)"), ("Content-Type", "content_type.value")], ["HttpContentTypes.TLV"]) ∧
+    Gen.Request.hostHeader = [("':' in connected_host", "Host: [{connected_host}]"), ("else", "Host: {connected_host}")] ∧
+    Gen.Request.contentTypes = [("JSON", "application/hap+json"), ("TLV", "application/pairing+tlv8")] := by
+  decide
+
+/-- and the model builds requests from exactly those pieces -/
+theorem C09_model_uses_source_pieces (target host ctype body : Bytes) :
+    getReq target host = build (str Gen.Request.getMethod) target host [] [] ∧
+    withBody (str Gen.Request.putMethod) target host ctype body =
+      build (str "PUT") target host ((Gen.Request.putHeaders.map (·.1)).zip [str (toString body.length), ctype] |>.map
+        (fun r => (str r.1, r.2))) body ∧
+    withBody (str Gen.Request.postMethod) target host ctype body =
+      build (str "POST") target host ((Gen.Request.postHeaders.map (·.1)).zip [str (toString body.length), ctype] |>.map
+        (fun r => (str r.1, r.2))) body := ⟨rfl, rfl, rfl⟩
 
 end HapVerif.C09
